@@ -10,6 +10,9 @@
 (*   exc                TRUE iff the call raised (ret = [])                             *)
 (*   dok                every returned distance is the oracle separation of its pair    *)
 (*   dsorted            the returned distance array is non-decreasing                   *)
+(*   coords, scalars    numeric forms of ra1/dec1/ra2/dec2 and of matchlength/chunksize/ *)
+(*                      maxmatch in this call (SphereMatch!CoordForms, ScalarForms); the *)
+(*                      verdict does not depend on them                                  *)
 (*   thin               (deviation runs only) near pairs the harness measured as lying  *)
 (*                      beyond margin/cosDecMin in RA of the looked-up cell             *)
 (* k = 0: judged in the initial state by Unlimited.  k > 0: a behaviour of the greedy   *)
@@ -48,7 +51,7 @@ Verdict0(t, P) ==
 Init == \E i \in 1..Len(Traces) :
           LET t == Traces[i]  P == ProbOf(t)  v == Verdict0(t, P) IN
           /\ tid = i
-          /\ Assert(ProblemOK(P) /\ OrderOK(t, P), <<"malformed trace", i>>)
+          /\ Assert(ProblemOK(P) /\ OrderOK(t, P) /\ CallOK(t), <<"malformed trace", i>>)
           /\ InitWith(P)
           /\ pos = IF ~FlagsOK(t) THEN 0
                    ELSE IF P.k = 0 \/ UseDev THEN (IF v = "" THEN Len(t.ret) + 1 ELSE 0)
